@@ -3,8 +3,14 @@ EXTENDS AgentClose, TLC, Json
 Behaviours == {[kind |-> "self", at |-> a, slow |-> FALSE] : a \in 1..5}
               \cup {[kind |-> k, at |-> 0, slow |-> s] : k \in {"eof", "term"}, s \in BOOLEAN}
               \cup {[kind |-> "stubborn", at |-> 0, slow |-> FALSE]}
-MCAgents == {[kind |-> b.kind, at |-> b.at, slow |-> b.slow, child |-> c, recv |-> r] :
-               b \in Behaviours, c \in {"none", "inherit", "own", "dies"}, r \in BOOLEAN}
-Export == (phase = 1 /\ ~exited /\ ~returned /\ ~waited /\ copyDone = ~agent.recv /\ childAlive = (agent.child # "none"))
+Tree == {[kind |-> b.kind, at |-> b.at, slow |-> b.slow, child |-> c, recv |-> r, w |-> FALSE] :
+           b \in Behaviours, c \in {"none", "inherit", "own", "dies"}, r \in BOOLEAN}
+\* agents that never read their standard input, with a writer that overfills the pipe
+Writers == {[kind |-> b.kind, at |-> b.at, slow |-> b.slow, child |-> "none", recv |-> r, w |-> TRUE] :
+              b \in {x \in Behaviours : (x.kind \in {"eof", "term"} /\ ~x.slow) \/ x.kind = "stubborn"
+                                        \/ (x.kind = "self" /\ x.at = 2)}, r \in BOOLEAN}
+MCAgents == Tree \cup Writers
+Export == (phase = 1 /\ ~exited /\ ~returned /\ ~waited /\ copyDone = ~agent.recv /\ childAlive = (agent.child # "none")
+           /\ wstate \in {"none", "idle"})
           => PrintT(<<"BEHAVIOUR", ToJson(agent)>>)
 ====
